@@ -254,3 +254,117 @@ Proof.
   - exists ("high" ++ LF)%string. split; vm_compute; reflexivity.
   - exists ("old" ++ LF)%string. split; vm_compute; reflexivity.
 Qed.
+
+(* ------------------------------------------------------------------ generators that do not
+   produce a result (Model/FilesKinds.v): supports_device false, NotSupportedDevice from run(),
+   run() returning None.  The plan is the argmax over the generators that PRODUCED a result. *)
+From Annet Require Import Model.FilesKinds Spec.P_C19K Proofs.FilesKindsProofs.
+
+(* the loop with such generators = the loop of Model/Files.v over the producing generators only;
+   it fails iff a generator that supports the device returns None from run() *)
+Theorem C19_kinds_run :
+  forall etck ks,
+    k_run_file_generators etck ks =
+    if existsb fails ks then None else Some (run_file_generators etck (produced ks)).
+Proof. exact k_run_spec. Qed.
+Print Assumptions C19_kinds_run.
+
+(* priorities need to be distinct among the producing generators only; a higher-priority generator
+   that turned the device down does not shadow anybody *)
+Theorem C19_kinds_argmax :
+  forall etck ks g,
+    existsb fails ks = false -> distinct_prios (produced ks) = true ->
+    In (KGen g KOk) ks -> g_path g <> "" ->
+    (forall h, In (KGen h KOk) ks -> g_path h = g_path g -> (g_prio h <= g_prio g)%Z) ->
+    exists res, k_run_file_generators etck ks = Some res /\
+      lookup (g_path g) (new_files false res) = Some (g_out g, reload_cmds etck (g_path g) (g_reload g)).
+Proof. exact k_argmax. Qed.
+Print Assumptions C19_kinds_argmax.
+
+Theorem C19_kinds_argmax_only :
+  forall etck ks res p o r,
+    distinct_prios (produced ks) = true ->
+    k_run_file_generators etck ks = Some res ->
+    lookup p (new_files false res) = Some (o, r) ->
+    exists g, In (KGen g KOk) ks /\ g_path g = p /\ p <> "" /\ o = g_out g /\
+              r = reload_cmds etck p (g_reload g) /\
+              forall h, In (KGen h KOk) ks -> g_path h = p -> (g_prio h <= g_prio g)%Z.
+Proof. exact k_argmax_only. Qed.
+Print Assumptions C19_kinds_argmax_only.
+
+Theorem C19_kinds_planned :
+  forall etck safe ks,
+    existsb fails ks = false -> distinct_prios (produced ks) = true ->
+    exists res, k_run_file_generators etck ks = Some res /\
+      nf_eqb (new_files safe res) (planned etck safe (produced ks)) = true.
+Proof. exact k_planned. Qed.
+Print Assumptions C19_kinds_planned.
+
+(* every listing order: the same failure, or the same plan *)
+Theorem C19_kinds_perm :
+  forall etck safe ks ks',
+    Permutation ks ks' -> distinct_prios (produced ks) = true ->
+    match k_run_file_generators etck ks, k_run_file_generators etck ks' with
+    | Some res, Some res' =>
+      (forall p, lookup p (new_files safe res) = lookup p (new_files safe res')) /\
+      nf_eqb (new_files safe res) (new_files safe res') = true
+    | None, None => True
+    | _, _ => False
+    end.
+Proof. exact k_perm. Qed.
+Print Assumptions C19_kinds_perm.
+
+(* a generator that produces nothing (and is not broken) can be listed anywhere or not at all *)
+Theorem C19_kinds_silent_irrelevant :
+  forall etck ks1 k ks2,
+    produces k = false -> fails k = false ->
+    k_run_file_generators etck (ks1 ++ k :: ks2) = k_run_file_generators etck (ks1 ++ ks2).
+Proof. exact k_silent_irrelevant. Qed.
+Print Assumptions C19_kinds_silent_irrelevant.
+
+Theorem C19_kinds_holds_exact :
+  forall differ : differ_t,
+    (forall p o n, differ p o n = [] <-> o = Some n) ->
+    (forall p o n, differ p o n <> [""]) ->
+    forall x, wf_C19K x = true -> P_C19K x (k_model differ x) = true.
+Proof. exact k_holds_exact. Qed.
+Print Assumptions C19_kinds_holds_exact.
+
+Theorem C19_kinds_holds_fixed :
+  forall x, wf_C19K x = true -> P_C19K x (k_model differ_exact x) = true.
+Proof. exact k_holds_differ_exact. Qed.
+Print Assumptions C19_kinds_holds_fixed.
+
+(* where every generator renders, the extended model is the model of Model/Files.v *)
+Theorem C19_kinds_conservative :
+  forall differ x, k_model differ (k_of x) = Some (model differ x).
+Proof. exact k_model_all_ok. Qed.
+Print Assumptions C19_kinds_conservative.
+
+(* non-vacuity: the highest-priority generator for /etc/a turns the device down while rendering,
+   another one does not support the device; the prio-100 generator wins in both listing orders,
+   although priorities 100 are NOT distinct among all listed generators *)
+Definition ex_kgens : list kgen :=
+  [ KGen (Gen "/etc/a" 200 ("high" ++ LF) "r-high" true) KDeclines;
+    KGen (Gen "/etc/a" 100 ("mid" ++ LF) "r-mid" true) KOk;
+    KGen (Gen "/etc/a" 100 ("other" ++ LF) "" true) KUnsupported;
+    KGen (Gen "/etc/a" 10 ("low" ++ LF) "r-low" true) KOk;
+    KGen (Gen "" 999 "x" "" true) KNone ].
+
+Example C19_example_kinds :
+  existsb fails ex_kgens = false /\ distinct_prios (produced ex_kgens) = true /\
+  distinct_prios (map k_gen ex_kgens) = false /\
+  Permutation ex_kgens (rev ex_kgens) /\
+  k_run_file_generators false ex_kgens = k_run_file_generators false (rev ex_kgens) /\
+  option_map (new_files false) (k_run_file_generators false ex_kgens) =
+    Some [("/etc/a", (("mid" ++ LF)%string, "r-mid"))].
+Proof.
+  split; [vm_compute; reflexivity|]. split; [vm_compute; reflexivity|]. split; [vm_compute; reflexivity|].
+  split; [apply Permutation_rev|]. split; vm_compute; reflexivity.
+Qed.
+
+Example C19_example_kinds_broken :
+  let ks := ex_kgens ++ [KGen (Gen "/etc/b" 1 "" "" true) KNone] in
+  existsb fails ks = true /\ k_run_file_generators false ks = None /\
+  k_run_file_generators false (rev ks) = None.
+Proof. repeat split; vm_compute; reflexivity. Qed.
